@@ -101,7 +101,7 @@ def rule_save_restore(ctx):
     wa = strip(o.call_args(w)[1])
     okw = False
     why = show(wa)[:200]
-    if wa[0] == "call" and wa[1].endswith("index::index") or (wa[0] == "call" and wa[1].endswith("Index::index")):
+    if wa[0] == "call" and wa[1].split("::")[-1] == "index":
         base, rng = strip(wa[2][0]), strip(wa[2][1])
         if root(base) == ("param", 2) and rng[0] == "agg" and rng[1].endswith("ops::Range"):
             d = dict(rng[3])
